@@ -536,3 +536,56 @@ prop("C17",
      assumptions=["natives not classified as order-revealing treat set "
                   "arguments order-insensitively (listed in evidence)"],
      unverified_surroundings=["loopy's C code generation", "mpi4py"])
+
+prop("C09",
+     level="exploration",
+     level_text=(
+         "The real find_distributed_partition, verify_distributed_partition "
+         "and number_distributed_tags are interpreted on every rank of listed "
+         "2- and 3-rank programs (ping-pong, ring, two-round halo exchange, "
+         "one array sent several times, receive returned as output, receive "
+         "reused in a later part, forwarding of a received array, sent and "
+         "stored arrays reused later, ranks without communication) and the "
+         "clause list of C09 is checked on the result by an independent "
+         "checker; number_distributed_tags and the part-construction block "
+         "are in addition proved for symbolic tags / ranks."),
+     level_note=(
+         "Whole-graph reasoning for all programs is outside what per-function "
+         "contracts carry here; the program list is finite. MPI is replaced "
+         "by its assumed contract (pyvc/fakempi.py)."),
+     technique="contract-based: postcondition (the clause list) checked on "
+               "the real code interpreted over listed programs; deductive "
+               "sub-contracts (z3) for tag numbering and part construction",
+     design_ref="DESIGN.md §6 C09/C10",
+     explanation="see contracts/c09_partition.py",
+     structural_bound="10 program shapes x 2..3 ranks x 2 ways of attaching "
+                      "sends",
+     trusted_base=["fake MPI collectives (pyvc/fakempi.py)"],
+     assumptions=["MPI delivers collectives as specified in pyvc/fakempi.py"],
+     unverified_surroundings=["mpi4py", "execute_distributed_partition"])
+
+prop("C10",
+     level="exploration",
+     level_text=(
+         "Every single fault (drop, duplicate, retag, redirect of one send or "
+         "one receive) at every communication operation of the listed valid "
+         "programs, plus cyclic and self-send programs, is run through the "
+         "real find_distributed_partition and verify_distributed_partition "
+         "(interpreted on every rank): some rank must raise a diagnostic and "
+         "no partition may be returned; the identifier constructors, the "
+         "duplicate detection of the dependency gatherer and the checks of "
+         "verify_distributed_partition are in addition proved for symbolic "
+         "ranks and tags."),
+     level_note=(
+         "Pairs of faults are not enumerated. 'On the affected ranks' is read "
+         "as 'on some rank' (verify raises on rank 0 only, by design)."),
+     technique="contract-based: postcondition checked on the real code "
+               "interpreted over enumerated single faults; deductive "
+               "sub-contracts (z3) for symbolic ranks/tags",
+     design_ref="DESIGN.md §6 C09/C10",
+     explanation="see contracts/c10_faults.py",
+     structural_bound="10 valid program shapes x 2..3 ranks x 8 fault kinds x "
+                      "every operation; 3 invalid program shapes",
+     trusted_base=["fake MPI collectives (pyvc/fakempi.py)"],
+     assumptions=["MPI delivers collectives as specified in pyvc/fakempi.py"],
+     unverified_surroundings=["mpi4py", "execute_distributed_partition"])
